@@ -557,7 +557,7 @@ class MirProgram:
         stripped) and, if given, trait (last segment)."""
         def last(t):
             t = re.sub(r"<.*>", "", t or "").strip()
-            t = t.lstrip("&").replace("mut ", "").replace("dyn ", "").strip()
+            t = re.sub(r"'\w+\s+", "", t.lstrip("&")).replace("mut ", "").replace("dyn ", "").strip()
             return t.split("::")[-1]
         want_ty, want_tr = last(self_ty), (last(trait) if trait else None)
         cands = []
